@@ -122,14 +122,18 @@ def extract_iter(
         ):
             origin, current, depth = to_unwrap.popleft()
             if isinstance(current, types.FrameType):
-                if not isinstance(
-                    origin,
-                    (
-                        types.CoroutineType,
-                        types.GeneratorType,
-                        types.AsyncGeneratorType,
-                    ),
-                ):
+                # Only a generator-like object whose own frame this is can
+                # serve as its origin: extract_outermost(origin) must lead
+                # back to this frame, which is not true of the frames that
+                # a *running* generator or coroutine is calling into.
+                origin_frame: Optional[types.FrameType] = None
+                if isinstance(origin, types.CoroutineType):
+                    origin_frame = origin.cr_frame
+                elif isinstance(origin, types.GeneratorType):
+                    origin_frame = origin.gi_frame
+                elif isinstance(origin, types.AsyncGeneratorType):
+                    origin_frame = origin.ag_frame
+                if origin_frame is not current:
                     origin = None
                 current = Frame(pyframe=current, origin=origin)
             if isinstance(current, Frame):
